@@ -107,17 +107,18 @@ def check_one(version, hist, line) -> list:
             bad(f"foreign-exception:{type(out.exc).__name__}", f"listen() raised {type(out.exc).__name__}: {out.exc}")
     elif out.kind != "yield":
         bad("no-outcome", f"step gave {out.kind}")
-    # whatever an accepted hostile presentation created must not blow up later traffic about it
+    # whatever the hostile line created or half-created (accepted or rejected) must not blow up later,
+    # well-formed traffic about the same node / child
     fl = line.split(";")
-    if out.kind == "yield" and len(fl) >= 6 and fl[2] == "0":
-        n_, c_ = fl[0], fl[1]
-        follow = [f"{n_};255;3;0;0;50", f"{n_};255;3;0;11;s", f"{n_};255;4;0;0;fw"]
-        if c_ != "255":
-            follow = [f"{n_};{c_};1;0;2;on", f"{n_};{c_};2;0;2;", f"{n_};{c_};1;0;0;1.5", f"{n_};{c_};1;0;99;z"] + follow
+    if len(fl) >= 6 and R.PLAIN_INT.match(fl[0]) and 0 <= int(fl[0]) <= 255 and (fl[2] == "0" or out.kind == "raise"):
+        n_ = fl[0]
+        c_ = fl[1] if R.PLAIN_INT.match(fl[1]) and 0 <= int(fl[1]) < 255 else "3"
+        follow = [f"{n_};{c_};1;0;2;on", f"{n_};{c_};2;0;2;", f"{n_};{c_};1;0;0;1.5", f"{n_};{c_};1;0;99;z",
+                  f"{n_};{c_};0;0;3;d", f"{n_};255;3;0;0;50", f"{n_};255;3;0;11;s", f"{n_};255;4;0;0;fw"]
         for fline in follow:
             o = s.line(fline)
             if o.kind == "raise" and not isinstance(o.exc, AIOMySensorsError):
-                bad(f"foreign-exception-later:{type(o.exc).__name__}", f"accepted, but the later line {fline!r} raised {type(o.exc).__name__}: {o.exc}")
+                bad(f"foreign-exception-later:{type(o.exc).__name__}", f"{out.kind}; then the later line {fline!r} raised {type(o.exc).__name__}: {o.exc}")
                 break
     # the gateway must remain usable
     for f in PROBE:
